@@ -21,11 +21,11 @@ Deviation flags (diagnosis of documented defects only):
   "ctx_flat"           the entries of a boxed context nested inside another boxed context are written into the frame
                        of the enclosing logic (they stay visible, and overwrite same-named entries, after the nested
                        context has ended)
-  "inv_omitted"        a boxed invocation of a knowledge model that leaves a parameter without binding: the parameter is not null
-                       inside the model's logic but resolves in the scope of the invoking element when that scope has an
-                       entry of the same name (the body runs on top of the caller's scope: same root as
-                       C01/closure-dynamic-scope). Decision services read their arguments from the top frame only and do
-                       not show it.
+  "inv_omitted"        the logic of a knowledge model runs on top of the scope of whoever calls it (same root as
+                       C01/closure-dynamic-scope): a parameter that a boxed invocation leaves without binding, and a name the logic
+                       mentions although it is neither a parameter nor required knowledge, are not null but resolve to a same-named
+                       entry of the invoking element (or of its callers). Decision services read their arguments from the top
+                       frame only and do not show it.
   "inv_whole_null"     not a defect but a second accepted reading: a boxed invocation that leaves a parameter unbound is null as a whole
   "bkm_service_value"  a decision service required by a BKM is bound to the service's *result* for the current input
                        context instead of to a function
@@ -293,7 +293,7 @@ class Evaluation:
             if "inv_omitted" in self.dev and caller is not None:
                 # deviation inv_omitted: the logic of EVERY knowledge model runs on top of the scope of whoever calls it (the whole
                 # chain of callers), and parameters left out by a boxed invocation are not bound at all: they resolve in that chain
-                if any(caller.get(p)[0] for p in omitted):
+                if any(caller.get(p)[0] for p in omitted) or any(caller.get(n)[0] for n in b.get("dangling", [])):
                     self.fired.add("inv_omitted")
                 env = caller.push(dict(frame)).push({p: a for (p, _), a in zip(params, args) if p not in omitted})
             else:
